@@ -33,7 +33,6 @@ Definition s_slash : str := [47].
 Definition s_star : str := [42].
 Definition s_slashstar : str := [47; 42].
 
-Definition nonempty (s : str) : bool := match s with [] => false | _ => true end.
 
 (* util.DropPort *)
 Definition drop_port (h : str) : str :=
